@@ -1,4 +1,6 @@
-"""Application family for C05: many middlewares, few data dependencies, nested blueprints."""
+"""Application family for C05: many middlewares, few data dependencies, nested blueprints; half of the
+applications register some of their routes through `bp.routes(from![module])` imports (one import per route,
+so that several imports of one blueprint are interleaved with its middlewares)."""
 import gen_app
 
 
@@ -9,4 +11,37 @@ def plan(tier):
 def make(rng, name):
     spec = gen_app.gen_spec(rng, name, "inclass", size=rng.randrange(2, 4), n_mws=rng.randrange(4, 9))
     spec["klass"] = "mw"
+    idx = int(name[1:]) if name[1:].isdigit() else 1
+    if idx % 3 == 0:
+        for _ in range(30):
+            if sum(1 for h in spec["handlers"] if not h["fallible"]) >= 2:
+                break
+            spec = gen_app.gen_spec(rng, name, "inclass", size=rng.randrange(2, 4), n_mws=rng.randrange(4, 9))
+            spec["klass"] = "mw"
+        # flat variant: every route of the application is imported into the root blueprint, with the middlewares
+        # spread between the imports
+        def flat(ops):
+            out = []
+            for op in ops:
+                out += flat(op[1]["ops"]) if op[0] == "nest" else [op]
+            return out
+        ops = flat(spec["bp"])
+        head = [op for op in ops if op[0] not in ("wrap", "pre", "post", "route")]
+        mws = [op for op in ops if op[0] in ("wrap", "pre", "post")]
+        routes = [op for op in ops if op[0] == "route"]
+        body, k = [], 0
+        for j, r in enumerate(routes):
+            take = max(1, len(mws) // max(1, len(routes))) if j < len(routes) - 1 else len(mws) - k
+            body += mws[k:k + take] + [r]
+            k += take
+        spec["bp"] = head + body
+        for h in spec["handlers"]:
+            h["full_path"] = h["path"]
+        spec["route_imports"] = {str(h["i"]): j for j, h in enumerate(spec["handlers"]) if not h["fallible"]}
+    elif rng.random() < 0.6:
+        # an import registers every route of the module where the import stands: equivalent to `route` ops at that
+        # position (that equivalence is what the check tests); one group per handler keeps the op list unchanged
+        hs = [h["i"] for h in spec["handlers"] if not h["fallible"]]
+        pick = [i for i in hs if rng.random() < 0.7]
+        spec["route_imports"] = {str(i): k for k, i in enumerate(pick)}
     return spec
